@@ -48,18 +48,42 @@ package apply
 //@   ensures [C05] forall k string :: has(lastApplied, k) == old(has(lastApplied, k)) && lastApplied[k] == old(lastApplied[k]) && has(desired, k) == old(has(desired, k)) && desired[k] == old(desired[k])
 
 // mergeArray: a list that does not look like a list map is replaced by the desired list; list maps go to mergeListMap.
-//@ func detectListMapKey(lists) (key)
-//@   trusted list-map detection and merge are outside the generator's reach (deep induction over lists of objects; an attempt to prove "a key is reported only if every item of every list is an object" produced invariant obligations the solvers do not discharge within the quick budget): exercised by the repo's tests only
-//@   pure
+//@ pred allObjects(l) = forall j int :: 0 <= j && j < len(l) ==> typeis(l[j], map[string]interface{})
 
+//@ func detectListMapKey(lists) (key)
+//@   safety C13,C05
+//@   bind loop 1: li, list
+//@   bind loop 2: ii, item
+//@   invariant loop 1 [C05,C13]: forall i int :: 0 <= i && i <= rangeindex ==> allObjects(lists[i])
+//@   invariant loop 2 [C05,C13]: forall i int :: 0 <= i && i < li ==> allObjects(lists[i])
+//@   invariant loop 2 [C05,C13]: forall j int :: 0 <= j && j <= rangeindex ==> typeis(list[j], map[string]interface{})
+//@   invariant loop 3 [C05,C13]: forall j int :: 0 <= j && j <= ii ==> typeis(list[j], map[string]interface{})
+//@   invariant loop 4 [C05,C13]: forall j int :: 0 <= j && j <= ii ==> typeis(list[j], map[string]interface{})
+//@   ensures [C05,C13] key != "" ==> (forall i int :: 0 <= i && i < len(lists) ==> allObjects(lists[i]))
+
+//@ func makeListMap(mergeKey, list) (res)
+//@   requires allObjects(list)
+//@   safety C13,C05
+//@   ensures [C05,C13] res != nil && fresh(res)
+
+// mergeListMap asserts (without checking) that every item of the three lists is an object: that is its precondition, established by
+// detectListMapKey's answer. The order and content of the merged list are not specified here.
 //@ func mergeListMap(fieldPath, mergeKey, destination, lastApplied, desired) (res, err)
-//@   trusted list-map detection and merge are outside the generator's reach (deep induction over lists of objects): exercised by the repo's tests only
+//@   requires allObjects(destination)
+//@   requires allObjects(lastApplied)
+//@   requires allObjects(desired)
+//@   safety C13,C05
+//@   // merging the per-key maps does not rewrite the lists themselves (JSON values are trees)
+//@   keeps call mergeObject: destination, desired
+//@   invariant loop 1 [C05,C13]: allObjects(destination) && allObjects(desired) && fresh(destList)
+//@   invariant loop 2 [C05,C13]: allObjects(desired) && fresh(destList)
 //@   ensures [C05] err != nil ==> res == nil
 
 //@ func mergeArray(fieldPath, destination, lastApplied, desired) (res, err)
 //@   safety C05,C13
 //@   bind call detectListMapKey: mergeKey
 //@   at mergeListMap(p, k, d, l, s) [C05]: k == mergeKey && k != "" && d == destination && l == lastApplied && s == desired
+//@   at detectListMapKey(ls) [C05,C13]: len(ls) == 3 && ls[0] == destination && ls[1] == lastApplied && ls[2] == desired
 //@   ensures [C05] mergeKey == "" ==> err == nil && typeis(res, []interface{}) && unbox(res, []interface{}) == desired && !called(mergeListMap)
 //@   // the list-map question is always asked (of all three lists), and a list map is always merged entry by entry - also when
 //@   // the desired list is empty: entries others added to a name-keyed list survive
